@@ -72,6 +72,9 @@ def parseInt (cs : List Char) : Option Int :=
   | '+' :: rest => if rest ≠ [] ∧ rest.all isDigit then some (decVal (rest.map charDigit) : Int) else none
   | _ => if cs.all isDigit then some (decVal (cs.map charDigit) : Int) else none
 
+/-- `str(z)` for a Python int of any size -/
+def intToStr (z : Int) : List Char := if z < 0 then '-' :: natToStr z.natAbs else natToStr z.natAbs
+
 def isBlank (c : Char) : Bool := c == ' ' || c == '\t' || c == '\n' || c == '\r'
 
 def strip (cs : List Char) : List Char :=
